@@ -122,6 +122,25 @@ def run_shard(sh, ctx):
 				i, j = np.argwhere(T != base)[0]
 				ctx.violation('width-dependent', f'd differs between widths {wa}/{wb} and {sh["widths"][0]}: {T[i, j]!r} vs {base[i, j]!r}',
 				              dict(A=sorted(subsets[i]), B=sorted(subsets[j]), widths=[wa, wb]))
+		# the same metric properties for the distance as reported by the bulk entry points (list-backed and concatenated references)
+		from gambit.sigs.base import SignatureArray, SignatureList
+		w0 = sh['widths'][0]
+		for cname, cont in (('list', list(arrs[w0])), ('SignatureList', SignatureList(list(arrs[w0]), None, dtype=np.dtype(w0))), ('SignatureArray', SignatureArray(arrs[w0], None, dtype=np.dtype(w0)))):
+			Tb = np.empty((n, n), dtype='f8')
+			for i in range(n):
+				Tb[i, :] = gm.jaccarddist_array(arrs[sh['widths'][-1]][i], cont)
+			ctx.count(f'bulk_tables:{cname}')
+			ctx.evals += n * n
+			for i in range(n):
+				for j in range(n):
+					check_pair_props(ctx, subsets[i], subsets[j], Tb[i, j], Tb[j, i], dict(A=sorted(subsets[i]), B=sorted(subsets[j]), via=f'jaccarddist_array on {cname}'))
+			for a in range(n):
+				m = Tb[a, :][None, :] > Tb[a, :, None] + Tb + SLACK
+				if m.any():
+					b, c = np.argwhere(m)[0]
+					ctx.violation('triangle', f'via jaccarddist_array on {cname}: d(a,c)={Tb[a, c]!r} > d(a,b)+d(b,c)={Tb[a, b] + Tb[b, c]!r}+2^-22',
+					              dict(A=sorted(subsets[a]), B=sorted(subsets[b]), C=sorted(subsets[c]), via=cname))
+					break
 		# pair properties + add-element monotonicity
 		fresh = max(U) + 1 if max(U) + 1 <= min(M.maxval(w_) for w_ in sh['widths']) else next(x for x in range(len(U) + 1) if x not in U)
 		for i in range(n):
@@ -217,7 +236,7 @@ def run_shard(sh, ctx):
 
 def finalize(merged, tier, seed, inconclusive):
 	c = merged['counters']
-	for n in ['triples_checked', 'add_common_element_checks', 'width_invariance_checks', 'class:union', 'class:near', 'width_combo:u2/u8', 'width_combo:u8/u2', 'mixed_width_pairs_with_unrepresentable_values']:
+	for n in ['triples_checked', 'add_common_element_checks', 'width_invariance_checks', 'class:union', 'class:near', 'width_combo:u2/u8', 'width_combo:u8/u2', 'mixed_width_pairs_with_unrepresentable_values', 'bulk_tables:list', 'bulk_tables:SignatureArray']:
 		if c.get(n, 0) == 0:
 			inconclusive.append(f'class never observed: {n}')
 	merged['notes'].setdefault('sanitizer_stage', {})
